@@ -510,7 +510,7 @@ KIND_NAMES = {
 COMPLEX_KINDS = ('affix', 'multi', 'multi3')
 
 
-def _matches_local(cfg: CFG) -> str:
+def _matches_local(cfg: CFG) -> Set[str]:
     """The constructor's local holding the field expressions found in the
     segment: `<name> = list(<pattern>.finditer(...))` / `<pattern>.findall(...)`."""
     names = set()
@@ -528,7 +528,21 @@ def _matches_local(cfg: CFG) -> str:
     if len(names) != 1:
         raise UnknownIdiom('%s: expected one local bound to the field expressions of the segment '
                            '(<pattern>.finditer/findall), found %s' % (cfg.func.qual, sorted(names)))
-    return names.pop()
+    # plain aliases (`matches = found`)
+    binds: Dict[str, List[object]] = {}
+    for n in cfg.live_nodes():
+        for nm in node_defs(n):
+            a = n.ast
+            v = a.value if n.kind == 'stmt' and isinstance(a, (ast.Assign, ast.AnnAssign)) and len(node_defs(n)) == 1 else None
+            binds.setdefault(nm, []).append(v)
+    changed = True
+    while changed:
+        changed = False
+        for nm, vals in binds.items():
+            if nm not in names and vals and all(isinstance(v, ast.Name) and v.id in names for v in vals):
+                names.add(nm)
+                changed = True
+    return names
 
 
 def derive_node_kinds(project: Project, cfg: CFG) -> Set[Tuple[int, object, object, object]]:
@@ -541,7 +555,7 @@ def derive_node_kinds(project: Project, cfg: CFG) -> Set[Tuple[int, object, obje
     `self.is_complex`) select / prune paths, every other test keeps both
     branches.  The three attributes must be assigned boolean constants /
     evaluable integers."""
-    mname = _matches_local(cfg)
+    mnames = _matches_local(cfg)
     ev = Evaluator(cfg.func.qual)
     out: Set[Tuple[int, object, object, object]] = set()
     FLAGS = ('is_var', 'is_complex', 'num_fields')
@@ -555,8 +569,9 @@ def derive_node_kinds(project: Project, cfg: CFG) -> Set[Tuple[int, object, obje
                 out.add((n_fields,) + st)
                 continue
             n = cfg.node(nid)
-            env = {mname: [Rec('field#%d' % i) for i in range(n_fields)],
-                   'self': Rec('self', **{k: v for k, v in zip(FLAGS, st) if v != 'unset'})}
+            fields = [Rec('field#%d' % i) for i in range(n_fields)]
+            env = {'self': Rec('self', **{k: v for k, v in zip(FLAGS, st) if v != 'unset'})}
+            env.update({m: fields for m in mnames})
             new = st
             only = None    # restrict the successors to this edge label
             if n.kind == 'stmt' and isinstance(n.ast, (ast.Assign, ast.AnnAssign, ast.AugAssign)):
@@ -573,8 +588,8 @@ def derive_node_kinds(project: Project, cfg: CFG) -> Set[Tuple[int, object, obje
                                 if type(v) is not int:
                                     raise UnknownIdiom('%s: num_fields is not assigned an evaluable integer (%s)' % (
                                         cfg.func.qual, short(n.ast, 80)))
-                            elif not (isinstance(val, ast.Constant) and isinstance(val.value, bool)):
-                                raise UnknownIdiom('%s: %s is not assigned a boolean constant (%s)' % (cfg.func.qual, sub.attr, short(n.ast, 80)))
+                            elif type(v) is not bool:
+                                raise UnknownIdiom('%s: %s is not assigned an evaluable boolean (%s)' % (cfg.func.qual, sub.attr, short(n.ast, 80)))
                             i = FLAGS.index(sub.attr)
                             new = new[:i] + (v,) + new[i + 1:]
             elif n.kind == 'stmt' and isinstance(n.ast, ast.Assert):
@@ -1499,8 +1514,10 @@ class TemplateText:
                             rx = re.compile(pat)
                         except re.error:
                             rx = None
-                        if rx is not None and all(rx.search('a' + c + 'b') for c in '\n\r') and not rx.search(replacement_parts(repl)[0]):
+                        if rx is not None and not rx.search(replacement_parts(repl)[0]):
                             kind = self._piece_kind(f, inside[0].args[1].id)
+                            if kind is not None and not all(rx.search('a' + c + 'b') for c in '\n\r'):
+                                continue   # a readable check that lets line breaks through: proves nothing here
                 if kind is None:
                     raise UnknownIdiom('%s: the test `%s` looks at template text with its field expressions substituted; this rule reads the '
                                        'whitespace check only as re.search(<pattern matching line breaks>, %s.sub(<constant>, <template or '
